@@ -86,6 +86,26 @@ func collectSync(fset *token.FileSet, body ast.Node, callees map[string]bool, ou
 			walk(x.Body, false)
 			*out = append(*out, "}")
 			return
+		case *ast.IfStmt:
+			walk(x.Init, false)
+			walk(x.Cond, false)
+			if endsInReturn(x.Body) {
+				*out = append(*out, "ifret{")
+				walk(x.Body, false)
+				*out = append(*out, "}")
+			} else {
+				walk(x.Body, false)
+			}
+			if x.Else != nil {
+				if eb, ok := x.Else.(*ast.BlockStmt); ok && endsInReturn(eb) {
+					*out = append(*out, "ifret{")
+					walk(eb, false)
+					*out = append(*out, "}")
+				} else {
+					walk(x.Else, false)
+				}
+			}
+			return
 		case *ast.SelectStmt:
 			*out = append(*out, "select{")
 			for _, c := range x.Body.List {
